@@ -13,7 +13,7 @@ Each property lists the test binaries that decide it.  A binary spec:
 """
 
 CPU_OFF = [
-    {"name": "default"},
+    {"name": "default", "first": True},
     {"name": "purego", "tags": ["purego"]},
     {"name": "noavx2", "env": {"GODEBUG": "cpu.avx2=off"}},
     {"name": "nobmi2", "env": {"GODEBUG": "cpu.bmi2=off"}},
